@@ -14,8 +14,8 @@ from bsim.sim import PROFILE_NAMES, HarnessError, Sim, World, describe_task, res
 
 PROPERTY = 'C13'
 PLAN = {
-    'quick': [('table', 100), ('pair', 2200), ('two_centrals', 400)],
-    'thorough': [('table', 100), ('pair', 90000), ('two_centrals', 12000)],
+    'quick': [('table', 100), ('pair', 2200), ('two_centrals', 400), ('flip', 400)],
+    'thorough': [('table', 100), ('pair', 90000), ('two_centrals', 12000), ('flip', 12000)],
 }
 WALL_CAP = {'quick': 150, 'thorough': 1500}
 EVIDENCE = {
@@ -442,6 +442,61 @@ def run_two(case):
         sim.close()
 
 
+# ====================================================================================== bonded twice, with different methods
+def gen_flip(rng, tier, seed):
+    return {'first_sc': rng.random() < 0.5, 'store': rng.choice(['json', 'json', 'memory']), 'same_connection': rng.random() < 0.5,
+            'io': [rng.randrange(5), rng.randrange(5)], 'mitm': rng.random() < 0.4, 'profile': rng.choice(PROFILE_NAMES), 'roles': rng.choice([['same'], ['swapped'], ['same', 'swapped']])}
+
+
+def run_flip(case):
+    """Two devices bond with LE legacy pairing and later again with Secure Connections (or the other way round), keeping their
+    key stores - a JSON store merges the new keys into the old entry. On the next connection both must use the LATEST bond."""
+    from bsim import simfs
+    from bumble.keys import JsonKeyStore, MemoryKeyStore
+
+    sim = Sim(case['seed'], case.get('profile', 'zero'), slow_node='N1')
+    undo = None
+    try:
+        world = World(sim, 2)
+        world.power_on()
+        d0, d1 = world[0].device, world[1].device
+        if case['store'] == 'json':
+            fs = simfs.SimFS(8192)
+            fs.mkdir('/data', True, True)
+            undo = simfs.install(fs)
+            d0.keystore = JsonKeyStore('N0', '/data/n0.json')
+            d1.keystore = JsonKeyStore('N1', '/data/n1.json')
+            sim.probe('json_key_stores')
+        else:
+            d0.keystore, d1.keystore = MemoryKeyStore(), MemoryKeyStore()
+        c0, c1 = world.connect_le(0, 1)
+        for n, sc in enumerate([case['first_sc'], not case['first_sc']]):
+            log, shared = [], {}
+            pairing.install(sim, d0, 'I', case['io'][0], sc, case['mitm'], True, {'delay': 0.0}, log, shared, 0x0F, 0x0F)
+            pairing.install(sim, d1, 'R', case['io'][1], sc, case['mitm'], True, {'delay': 0.0}, log, shared, 0x0F, 0x0F)
+            if n == 1 and not case['same_connection']:
+                sim.run(c0.disconnect(), 30.0)
+                sim.loop.settle(vt_budget=2.0)
+                c0, c1 = world.connect_le(0, 1)
+            st, t = sim.run(c0.pair(), 120.0)
+            sim.loop.settle(vt_budget=3.0)
+            if st != 'done' or t.exception() is not None:
+                sim.probe('flip_setup_pairing_failed')  # whether a pairing concludes is judged by the other scenarios
+                return result(sim, nontrivial=False)
+        sim.probe('bonded_twice_with_different_methods')
+        facts = f'{"legacy-then-sc" if not case["first_sc"] else "sc-then-legacy"}:{case["store"]}'
+        for roles in case['roles']:
+            _reconnect_check(sim, world, roles, facts)
+            if sim.violations:
+                break
+        sim.trace.shape(case['first_sc'], case['store'], case['same_connection'], tuple(case['roles']))
+        return result(sim, nontrivial=True)
+    finally:
+        if undo:
+            undo()
+        sim.close()
+
+
 def gen_table(rng, tier, seed, index):
     """The association-model table, exhaustively: 5x5 IO capabilities x {legacy, SC} x {no MITM, MITM} = 100 cells."""
     io_i, io_r, sc, mitm = index % 5, (index // 5) % 5, bool((index // 25) % 2), bool((index // 50) % 2)
@@ -453,4 +508,4 @@ def gen_table(rng, tier, seed, index):
 
 gen_table.wants_index = True
 
-SCENARIOS = {'pair': (gen_pair, run_pair), 'table': (gen_table, run_pair), 'two_centrals': (gen_two, run_two)}
+SCENARIOS = {'pair': (gen_pair, run_pair), 'table': (gen_table, run_pair), 'two_centrals': (gen_two, run_two), 'flip': (gen_flip, run_flip)}
